@@ -204,7 +204,7 @@ def run(tier, v):
     out = os.path.join(vlib.scratch(), "c20tv")
     params = ({"colstride": 7, "namestride": 10, "random": 300, "seqsample": True, "probes": 6, "probecpu": 2}
               if quick else
-              {"colstride": 1, "namestride": 2, "random": 6000, "seqsample": False, "probes": 24, "probecpu": 4})
+              {"colstride": 1, "namestride": 3, "random": 3000, "seqsample": False, "probes": 24, "probecpu": 4})
     parts = 4 if quick else 8
     sums = _run_tv_driver(h, out, params, parts)
     files = []
@@ -278,7 +278,7 @@ def run(tier, v):
 
     # 3. spec -> impl
     mdir = os.path.join(vlib.scratch(), "c20mbt")
-    cs = vlib.run_driver(h, "c20_catalogue", mdir, {"maxwit": 24 if quick else 48}, extra_env=ENV)
+    cs = vlib.run_driver(h, "c20_catalogue", mdir, {"maxwit": 24 if quick else 36}, extra_env=ENV)
     cat = os.path.join(mdir, "catalogue.ndjson")
     g = vlib.tlc("ProgressGen", "ProgressGen_quick.cfg" if quick else "ProgressGen_thorough.cfg", timeout=3000, heap="4g",
                  extra_env={"VERIF_CATALOGUE": cat, "VERIF_SEED": str(vlib.seed())})
